@@ -14,6 +14,8 @@ Added later in build rounds 2-3 (see DESIGN.md section 3, round-2/3 table):
 R14.6 a function-app is stateless across records: the constructor arguments it stored (self._args, self._kwargs) reach the user's function only as deep ...
 R14.7 apply_to never raises because one record fails: the call of the writer's main inside the loop over completed results sits in a try whose handler ...
 R14.8 a re-run records a repeated failure instead of raising: the writers' overwrite check (`unique_id in self` in append mode) answers for the one ...
+R14.9 a NotCompleted built under a handler that can see an OSError does not take its message from err.args[0].
+R14.10 write_db tests the result of its serialiser app for NotCompleted.
 """
 
 from __future__ import annotations
@@ -376,7 +378,47 @@ def r14_10(chk):
     chk.floor("R14.10", 1, "write_db.main")
 
 
+def r14_11(chk):
+    chk.rule("R14.11", "inputs are not selected by their truth value: where the inputs of a run are gathered (_proxy_input, the loops of _as_completed / _apply_to), no element is skipped because `not e` -- a NotCompleted (falsy by design), 0, an empty collection or an empty dict are inputs like any other and must end up as one record each; only `is None` / empty-text tests may drop an element")
+    m = chk.repo.module(CP)
+    n = 0
+    for q in ("_proxy_input", "_as_completed", "_apply_to"):
+        fn = m.func(q)
+        for lp in walk_no_nested(fn):
+            if not isinstance(lp, ast.For) or not isinstance(lp.target, ast.Name):
+                continue
+            ev = lp.target.id
+            n += 1
+            bad = None
+            for st in ast.walk(lp):
+                if isinstance(st, ast.If) and any(isinstance(x, (ast.Continue, ast.Break)) for x in st.body):
+                    for name, positive in _truthy_names(st.test):
+                        if name == ev and not positive:
+                            bad = st
+                # comprehension-style filters are handled below
+            for comp in ast.walk(fn):
+                if isinstance(comp, (ast.ListComp, ast.GeneratorExp, ast.SetComp)):
+                    for gen in comp.generators:
+                        for cond in gen.ifs:
+                            if isinstance(gen.target, ast.Name) and any(nm == gen.target.id for nm, _ in _truthy_names(cond)) and isinstance(cond, (ast.Name, ast.UnaryOp)):
+                                bad = bad or comp
+            k = key(m, q, f"elements of `{norm(lp.iter)[:40]}` not dropped by truth value")
+            chk.decide(bad is None, "R14.11", k, m.loc(bad or lp), "no truthiness filter on the element", f"`if {norm(bad.test) if isinstance(bad, ast.If) else norm(bad)[:60]}: continue` drops every falsy input without a record: second().as_completed(<results of first()>) loses the NotCompleted results of the first step (3 inputs, 2 records), likewise 0, {{}} or an empty collection")
+    chk.floor("R14.11", 2, "the element loops of _proxy_input and _apply_to")
+
+
+def _truthy_names(test):
+    if isinstance(test, ast.Name):
+        return [(test.id, True)]
+    if isinstance(test, ast.UnaryOp) and isinstance(test.op, ast.Not) and isinstance(test.operand, ast.Name):
+        return [(test.operand.id, False)]
+    if isinstance(test, ast.BoolOp):
+        return [t for v in test.values for t in _truthy_names(v)]
+    return []
+
+
 def run(chk):
+    r14_11(chk)
     r14_10(chk)
     r14_9(chk)
     r14_8(chk)
